@@ -753,3 +753,7 @@ SUBCHECKS = [
     Sub('pruning-metamorphic', check_meta, strategy=lambda tier: st_meta(), classify=classify, nontrivial=nt,
         n=(1500, 40000), shards=(16, 32)),
 ]
+
+# the same generated cases, several at a time, checked by threads that run at the same time (core.run_overlapping): per-call state
+# kept in a place two calls share shows only there
+SUBCHECKS.append(__import__('harness.core', fromlist=['overlapped']).overlapped(next(s for s in SUBCHECKS if s.name == 'exotic-model'), k=3, n=(40, 1500)))
